@@ -273,7 +273,9 @@ func (fc *FuncCtx) evalBuiltin(c *ast.CallExpr, name string, st *State) []*Value
 		st.pc = append(st.pc, "false")
 		return nil
 	case "close":
-		fc.unsupp(c, "close")
+		ch := fc.eval(c.Args[0], st)
+		fc.chanOp("close", c, st, ch, fc.info.TypeOf(c.Args[0]), nil)
+		return nil
 	}
 	fc.unsupp(c, "builtin %s", name)
 	return nil
